@@ -152,8 +152,10 @@ def native_replay(binp, entry, model, tmp, tag):
     m = REPLAY_RE.search(r.stdout)
     if not m:
         # the process died (fatal error, SIGSEGV): that is itself an outcome
-        tail = (r.stdout + r.stderr)[-600:]
-        return dict(outcome="crash", detail=tail)
+        allout = r.stdout + r.stderr
+        if "test timed out" in allout:
+            return dict(outcome="timeout", detail="go test deadline (120s) reached: the harness did not return")
+        return dict(outcome="crash", detail=allout[-600:])
     return dict(outcome=m.group(2), detail=m.group(3))
 
 
@@ -164,6 +166,8 @@ def matches_expectation(obl, rr):
         return rr["outcome"] == "assert" and obl["msg"] in (rr["detail"] or "") or rr["outcome"] == "assert"
     if kind in ("panic", "deadlock"):
         return rr["outcome"] in ("panic", "crash", "timeout")
+    if kind == "nonterm":
+        return rr["outcome"] == "timeout" or (rr["outcome"] == "crash" and "timed out" in (rr["detail"] or ""))
     if kind == "alloc":
         return True  # allocation budgets are not observable natively without allocating; taken from the encoding
     return False
